@@ -368,7 +368,11 @@ func (g *G) astate(s *ASpec) *AState {
 		}
 		if g.mode == "c18" {
 			for n := 1 + g.intn(2); n > 0; n-- {
-				st.Bs[g.pick(permKeys)] = g.smallJSON()
+				if g.chance(0.4) {
+					st.Bs[g.pick(permKeys)] = []interface{}{map[string]interface{}{"q": g.num()}, g.scalar()}
+				} else {
+					st.Bs[g.pick(permKeys)] = g.smallJSON()
+				}
 			}
 		}
 	}
